@@ -238,31 +238,9 @@ Definition impl_dcall (hi : nat) (op : dop) : call :=
 
 (* ---- OrefaFS ----------------------------------------------------------------------- *)
 (* OrefaFile (vfs/orefafs/orefafs_file.go) is MemFile with other lock modes and type tests; the one
-   difference in behaviour is the order of two tests in Truncate (closed before size < 0).
-   OrefaFS.Rename (orefafs.go:769) never touches a link counter and never releases the data of a
-   replaced file, and returns nil at once when both names are the same.  Modelled here for the
-   flat directory the C02 histories use (existing parent directories, regular files). *)
-Definition orefa_rename (s : fsys) (v : view) (old new : str) : fsys * res :=
-  if str_eqb (abs (v_os v) (v_cwd v) old) (abs (v_os v) (v_cwd v) new) then (s, ROk)
-  else
-    let ro := search_node s v old SlLstat in
-    let rn := search_node s v new SlLstat in
-    if negb (is_file_exists (sr_err ro)) then (s, RFail ENoSuchFile)
-    else if negb (is_file_exists (sr_err rn)) && negb (is_not_exist (sr_err rn) && pi_is_last (sr_pi rn))
-    then (s, RFail ENoSuchFile)
-    else
-      match sr_parent ro, sr_child ro, sr_parent rn with
-      | Some op, Some oc, Some np =>
-          let h := f_heap s in
-          let tgt_dir := match sr_child rn with
-                         | Some nc => if is_file_exists (sr_err rn) then node_is_dir h nc else false
-                         | None => false
-                         end in
-          if (node_is_dir h oc && is_file_exists (sr_err rn)) || tgt_dir then (s, RFail EFileExists)
-          else (with_heap s (remove_child (add_child h np (pi_part (sr_pi rn)) oc) op (pi_part (sr_pi ro))), ROk)
-      | _, _, _ => (s, RFail ENoSuchFile)
-      end.
-
+   difference in behaviour is the order of two tests in Truncate (closed before size < 0).  The
+   namespace calls the C02 histories use (OpenFile, Truncate, Rename, Link, Remove on regular files in
+   one existing directory) behave as those of MemFS. *)
 Definition handle_closed (w : world) (hi : nat) : bool :=
   match nth_error (w_handles w) hi with
   | Some f => match hd_node f with None => true | Some _ => false end
@@ -272,43 +250,11 @@ Definition handle_closed (w : world) (hi : nat) : bool :=
 Definition orefa_step (w : world) (op : fop) : world * res :=
   match op with
   | Ftruncate fd size => if handle_closed w fd then wstep w (FTruncate fd 0) else wstep w (FTruncate fd size)
-  | PRename old new => on_view w 0 (fun v => lift w (orefa_rename (w_fs w) v (fpath old) (fpath new)))
-  | PTruncate name size =>       (* OrefaFS.Truncate looks the name up before it tests the size *)
-      if Z.ltb size 0 then
-        match wstep w (CStat 0 (fpath name)) with
-        | (_, RFail e) => (w, RFail e)
-        | _ => (w, RFail EInvalidArgument)
-        end
-      else wstep w (impl_call op)
   | _ => wstep w (impl_call op)
   end.
 
-(* rename(2) over an existing file drops one link of the replaced inode; OrefaFS leaves its counter alone *)
-Definition still_visible (st : fstate) (j : nat) : bool :=
-  open_on st j || match nth_error (st_inodes st) j with Some ino => Z.ltb 1 (i_nlink ino) | None => false end.
-
-Inductive ofinding :=
-| OKf (k : finding)
-| OKfRenameKeepsLinkCount    (* OrefaFS.Rename over an existing file: the replaced inode keeps its link count *)
-| OKfRenameHardLinkAlias     (* OrefaFS.Rename(a, b), a and b names of one inode: a is removed; rename(2) does nothing *)
-| OKfPathTruncatePriority    (* OrefaFS.Truncate(missing name, negative size): ENOENT; truncate(2) refuses the size first *)
-| OKfRenameSameNameMissing.  (* OrefaFS.Rename(x, x) returns nil even when x does not exist *)
-
-Definition kf02_orefa (st : fstate) (op : fop) : option ofinding :=
+Definition kf02_orefa (st : fstate) (op : fop) : option finding :=
   match op with
   | Ftruncate _ _ => None
-  | PRename old new =>
-      match lookup_name st old, lookup_name st new with
-      | Some i, Some j =>
-          if Nat.eqb i j then (if str_eqb old new then None else Some OKfRenameHardLinkAlias)
-          else if still_visible st j then Some OKfRenameKeepsLinkCount else None
-      | None, _ => if str_eqb old new then Some OKfRenameSameNameMissing else None
-      | _, _ => None
-      end
-  | PTruncate name size =>
-      match lookup_name st name with
-      | None => if Z.ltb size 0 then Some OKfPathTruncatePriority else None
-      | Some _ => None
-      end
-  | _ => option_map OKf (kf02 st op)
+  | _ => kf02 st op
   end.
